@@ -168,4 +168,50 @@ theorem lawful_fxrates : Lawful encFXRates decFXRates ValidFXRates := by
   simp only [List.append_assoc, lawful_seq encFXRate decFXRate _ lawful_fxrate f.quotes h.1,
     lawful_seq encStr decStr _ lawful_str f.currencies h.2]
 
+/-! ### curves -/
+theorem lawful_nodeVal (kind : Nat) :
+    Lawful encNodeVal (decNodeVal kind) (fun v => v.kind = kind ∧ ValidNumber v) := by
+  intro v h rest
+  obtain ⟨hk, hv⟩ := h
+  cases v with
+  | f64 b =>
+    simp only [SNumber.kind] at hk; subst hk
+    simp only [encNodeVal, decNodeVal]
+    rw [lawful_u64 b (by simpa [ValidNumber] using hv)]
+  | dual d =>
+    simp only [SNumber.kind] at hk; subst hk
+    simp only [encNodeVal, decNodeVal]
+    rw [lawful_dual d (by simpa [ValidNumber] using hv)]
+  | dual2 d =>
+    simp only [SNumber.kind] at hk; subst hk
+    simp only [encNodeVal, decNodeVal]
+    rw [lawful_dual2 d (by simpa [ValidNumber] using hv)]
+
+theorem lawful_node (kind : Nat) :
+    Lawful encNode (decNode kind) (fun p => p.1 < 2 ^ 64 ∧ p.2.kind = kind ∧ ValidNumber p.2) := by
+  intro p h rest
+  unfold encNode decNode
+  simp only [List.append_assoc, lawful_u64 p.1 h.1, lawful_nodeVal kind p.2 h.2]
+
+def ValidCurve (c : SCurve) : Prop :=
+  c.nodesKind < 2 ^ 32 ∧
+  (c.nodes.length < 2 ^ 64 ∧ ∀ p ∈ c.nodes, p.1 < 2 ^ 64 ∧ p.2.kind = c.nodesKind ∧ ValidNumber p.2) ∧
+  c.interp < 2 ^ 32 ∧ c.id.length < 2 ^ 64 ∧ c.convention < 2 ^ 32 ∧ c.modifier < 2 ^ 32 ∧
+  (∀ b, c.indexBase = some b → b < 2 ^ 64) ∧ c.calendar.length < 2 ^ 64
+
+theorem encCurve_eq (c : SCurve) :
+    encCurve c = encU32 c.nodesKind ++ encSeq encNode c.nodes ++ encU32 c.interp ++ encStr c.id ++
+      encU32 c.convention ++ encU32 c.modifier ++ encOpt encU64 c.indexBase ++ encU32 2 ++ encStr c.calendar := rfl
+
+theorem lawful_curve : Lawful encCurve decCurve ValidCurve := by
+  intro c h rest
+  obtain ⟨h1, h2, h3, h4, h5, h6, h7, h8⟩ := h
+  rw [encCurve_eq]
+  unfold decCurve
+  simp only [List.append_assoc, lawful_u32 c.nodesKind h1,
+    lawful_seq encNode (decNode c.nodesKind) _ (lawful_node c.nodesKind) c.nodes h2,
+    lawful_u32 c.interp h3, lawful_str c.id h4, lawful_u32 c.convention h5, lawful_u32 c.modifier h6,
+    lawful_opt encU64 decU64 _ lawful_u64 c.indexBase h7,
+    lawful_u32 2 (by decide), lawful_str c.calendar h8]
+
 end Rateslib.Serde
